@@ -225,7 +225,13 @@ func runC08(t *testing.T, c simrt.Chooser, o Opts) *Out {
 		}
 	}
 	ncalls := 0
-	for id, n := range scn.calls {
+	var callIDs []int
+	for id := range scn.calls {
+		callIDs = append(callIDs, id)
+	}
+	sort.Ints(callIDs)
+	for _, id := range callIDs {
+		n := scn.calls[id]
 		ncalls += n
 		if n != 1 {
 			out.violate("C08.probe-twice", sig, "request %d was probed %d times", id, n)
